@@ -416,6 +416,9 @@ def jobs(tier):
           add('h_seq_op', op=op, field=f, n=3, swap=sw, budget=2400,
               required=op not in ('extract', 'sustain', 'split_changes'))
   add('h_seq_op', op='extract', field='text_annotations', n=2, swap=0, ta_type=2)
+  # three notes: two starting together (tie order = storage order) + a later one
+  for sw in (0, 1):
+    add('h_seq_op', op='split_silence', field='notes', n=3, swap=sw)
   for t in ('melody', 'drums', 'pianoroll', 'performance'):
     add('h_extract_events', type=t, n=2, swap=0, S=4, budget=600)
     if deep:
